@@ -8,7 +8,8 @@
 set -u
 export GOFLAGS=-mod=mod GOPROXY=off GOSUMDB=off GOTOOLCHAIN=local
 P=$1; N=$2; shift 2
-SRC=/tmp/out-$P
+SRC=${SEED_SRC:-/tmp/out-$P}
+TAG=${SEED_TAG:-}
 [ -f $SRC/patch$N.diff ] || { echo "no $SRC/patch$N.diff"; exit 3; }
 M=$(mktemp -d /var/tmp/verif-seed-XXXXXX)
 trap 'rm -rf "$M"' EXIT
@@ -40,7 +41,7 @@ for c in "$@"; do
   res="$res{\"check\":\"$c\",\"exit\":$r,\"violations\":\"$(echo $sig | sed 's/"/\\"/g')\"},"
 done
 if [ $clean_demo = 0 ] && [ $suite = 0 ] && [ $mut_demo != 0 ]; then
-  D=/verif/seeded/$P-$N; mkdir -p $D/demo
+  D=/verif/seeded/$P-$TAG$N; mkdir -p $D/demo
   cp $SRC/patch$N.diff $D/patch.diff; cp $SRC/demo$N/*.go $D/demo/
   cat > $D/meta.json <<META
 {"property": "$P", "source": "independent sub-agent given only the property text and a scratch worktree",
@@ -50,7 +51,7 @@ if [ $clean_demo = 0 ] && [ $suite = 0 ] && [ $mut_demo != 0 ]; then
  "needs": "see README excerpt in needs.txt"}
 META
   awk "/[Cc]hange $N/,0" $SRC/README.md | head -60 > $D/needs.txt 2>/dev/null
-  echo "SEED $P-$N: stored in $D"
+  echo "SEED $P-$TAG$N: stored in $D"
 else
   echo "SEED $P-$N: NOT confirmed, not stored"
 fi
